@@ -60,6 +60,7 @@ FUT_CALLS = [(r'^operator!=\|bool \(const __normal_iterator<(const )?std::shared
              (r'^operator==\|bool \(const __normal_iterator<(const )?std::shared_future', '({0}.i == {1}.i)'),
              (r'^operator\+\+\|.*__normal_iterator<(const )?std::shared_future', '(++{0}.i)'),
              (r'^operator\*\|.*__normal_iterator<(const )?std::shared_future', '(*nv_future_at({0}.v, {0}.i))'),
+             (r'^operator\+\|.*__normal_iterator<(const )?std::shared_future', 'nv_fit_plus({0}, {1})'),
              (r'^ctor\|(%s)\|void \((std::)?vector<.*> &&\)' % FUTVEC, 'nv_futvec_move({&0})'),
              (r'^operator=\|.*vector<.*> &&\)\|(%s|nano::parallel::section_t)' % FUTVEC, 'nv_futvec_move_assign({&0}, {&1})'),
              (r'^ctor\|(%s)\|void \(__gnu_cxx::__normal_iterator<(const )?std::shared_future<void> \*.*, __gnu_cxx::__normal_iterator<' % FUTVEC, 'nv_futvec_range({0}, {1})'),
@@ -77,7 +78,7 @@ FUT_MEMBERS = [(r'^c?begin\|std::vector<std::shared_future', 'nv_fit_begin({self
 
 def section_fns():
     """section_t::block(raise) and ~section_t() (contracts: section.h); ~section_t calls block through its contract"""
-    scommon = dict(self_struct='struct nv_section', types=[(FIT, 'struct nv_fit'), (r'^(%s)$' % FUTVEC, 'struct nv_section')] + TYPES, uf_float=False)
+    scommon = dict(self_struct='struct nv_section', types=[(r'::difference_type$', 'int64_t'), (FIT, 'struct nv_fit'), (r'^(%s)$' % FUTVEC, 'struct nv_section')] + TYPES, uf_float=False)
     block = Fn('section_block', SRC, 'block', flt='section_t::block', calls=FUT_CALLS, members=FUT_MEMBERS, **scommon)
     sdtor = Fn('section_dtor', SRC, '~section_t', flt='section_t::~section_t', kinds=('CXXDestructorDecl',),
                calls=FUT_CALLS, members=[(r'^block\|nano::parallel::section_t', 'nv_call_block({self}, {0})!')] + FUT_MEMBERS, **scommon)
@@ -211,7 +212,7 @@ def build(tier):
             'lost wake-ups / deadlock freedom: the bounded model lets wait(lock, pred) return whenever pred holds (notify_one / notify_all are no-ops), so a missing or misplaced notify is invisible; only "the final state is reachable under some schedule" is checked (nv_canary).  The stricter notification-counter model is sketched in conc.h (NV_STRICT_NOTIFY) but not run',
             'data races on plain members read outside the models (m_stop is read directly by the extracted code): no race detector is run (goto-instrument --race-check not tried); sequential consistency is assumed by the bounded check',
             'data races on the operator\'s own state; exceptions thrown by the operator in the sequential branch (observation, demonstrated natively: there an exception leaves map also with raise == false, so whether map(.., false) throws depends on the pool size: specs/C17/FINDING_seq_branch_raise.md)',
-            'section_t::block written with an explicit iterator or index loop instead of the range-based for: the loop contract of section.h names the range-for\'s own variables (__range1 / __begin1 / __end1), such a rewrite ends undecided (exit 2), not refuted; a local of type section_t inside block (its destructor calls block again) and try / catch inside block or map are not in the printer\'s / the model\'s vocabulary (undecided)',
+            'section_t::block written with an INDEX loop ((*this)[i]) instead of an iterator / range-based loop (those are covered: the loop contract names the iterator by its role): undecided (exit 2), not refuted; a local of type section_t inside block (its destructor calls block again) and try / catch inside block or map are not in the printer\'s / the model\'s vocabulary (undecided)',
             'that "this thread observed the task finished" implies the operator\'s effects are visible to the caller (happens-before through the shared state of std::future: assumed, C++ [futures.state])',
             'std::thread(std::cref(worker)) starts worker k on thread k (lambda inside std::transform: not extractable, dependent types)',
             'that clearing the queue on stop breaks the promises of the dropped tasks (std::packaged_task destructor semantics)',
